@@ -3,11 +3,12 @@
 verbs = [("Panic","PanicLevel"),("Fatal","FatalLevel"),("Error","ErrorLevel"),("Warn","WarnLevel"),("Info","InfoLevel"),
          ("Debug","DebugLevel"),("Trace","TraceLevel"),("Print","AlwaysLevel"),("OK","OKLevel"),("Success","SuccessLevel"),("Fail","FailLevel")]
 out = []
-def block(name, recv, sev, callee, callee_assert, const_sev=True):
+CALLS = {}
+def block(name, recv, sev, callee, callee_assert, const_sev=True, fd="entry"):
     ent = "s" if recv == "s" else "specDefaultEntry()"
-    req = "s != nil && specFmtInv(s)" if recv == "s" else "specDefaultEntry() != nil && specFmtInv(specDefaultEntry())"
+    req = "s != nil && specFmtInv(s) && 0 <= s.extraFrames && s.extraFrames <= 1048576" if recv == "s" else "specDefaultEntry() != nil && specFmtInv(specDefaultEntry()) && 0 <= specDefaultEntry().extraFrames && specDefaultEntry().extraFrames <= 1048576"
     lv = f"{ent}.level"
-    b = [f"//@ func {name}", "//@   props C01 C02 C12 C13", f"//@   requires {req}", "//@   assigns everything", "//@   keeps PrintCtx.off, PrintCtx.lvl"]
+    b = [f"//@ func {name}", "//@   props C01 C02 C12 C13 C14", f"//@   requires {req}", "//@   assigns everything", "//@   keeps PrintCtx.off, PrintCtx.lvl"]
     term = f"specAdmits({lv}, {sev}) && specInterrupts() && isnil({ent}.handlerOpt)"
     if const_sev:
         if sev == "PanicLevel":
@@ -33,25 +34,37 @@ def block(name, recv, sev, callee, callee_assert, const_sev=True):
           "//@   ensures [C12.flags] flags == old(flags) && inTesting == old(inTesting)"]
     b += [f"//@   ensures [C01.gate] implies(!old(specAdmits({lv}, {sev})), ghost.emits == old(ghost.emits))",
           f"//@   ensures [C01.emit] implies(old(specAdmits({lv}, {sev})), ghost.emits > old(ghost.emits))",
-          f"//@   at call {callee} assert [C01.sev] {callee_assert}", "//@"]
+          f"//@   at call {callee} assert [C01.sev] {callee_assert}"]
+    if fd:
+        b.append(f"//@   fd {fd}")
+    if "getpc" in CALLS.get(name, ""):
+        b.append(f"//@   at call getpc assert [C14.extra] callee.extra == {ent}.extraFrames")
+        b.append(f"//@   at call (*Entry).logContext assert [C14.pc] callee.stackFrame == ghost.ioPC")
+    b.append("//@")
     return b
 for v, lvl in verbs:
     out += block(f"(*Entry).{v}", "s", lvl, "(*Entry).log1", f"callee.lvl == {lvl} && callee.s == s")
 out += block("(*Entry).Println", "s", "AlwaysLevel", "(*Entry).log1", "callee.lvl == AlwaysLevel && callee.s == s")
 for v, lvl in verbs + [("Println","AlwaysLevel")]:
+    CALLS[f"(*Entry).{v}Context"] = "getpc"
     out += block(f"(*Entry).{v}Context", "s", lvl, "(*Entry).logContext", f"callee.lvl == {lvl} && callee.s == s")
+for v in ["LogAttrs", "Logit", "Log", "Infof", "Warnf", "Errorf", "log1"]:
+    CALLS[f"(*Entry).{v}"] = "getpc"
+CALLS["logctxctx"] = "getpc"
 for v in ["LogAttrs", "Logit"]:
     out += block(f"(*Entry).{v}", "s", "level", "(*Entry).logContext", "callee.lvl == level && callee.s == s", const_sev=False)
 out += block("(*Entry).Log", "s", "logsloglevel2Level(level)", "(*Entry).logContext", "callee.lvl == logsloglevel2Level(level) && callee.s == s", const_sev=False)
 for v, lvl in [("Infof","InfoLevel"),("Warnf","WarnLevel"),("Errorf","ErrorLevel")]:
     out += block(f"(*Entry).{v}", "s", lvl, "(*Entry).logContext", f"callee.lvl == {lvl} && callee.s == s")
-out += block("(*Entry).log1", "s", "lvl", "(*Entry).logContext", "callee.lvl == lvl && callee.s == s", const_sev=False)
+out += block("(*Entry).log1", "s", "lvl", "(*Entry).logContext", "callee.lvl == lvl && callee.s == s", const_sev=False, fd="1")
 # package level
 for v, lvl in verbs:
     out += block(v, "d", lvl, "logctx", f"callee.lvl == {lvl}")
 out += block("Println", "d", "AlwaysLevel", "logctx", "callee.lvl == AlwaysLevel")
 for v, lvl in verbs + [("Println","AlwaysLevel")]:
     out += block(f"{v}Context", "d", lvl, "logctxctx", f"callee.lvl == {lvl}")
-out += block("logctx", "d", "lvl", "logctxctx", "callee.lvl == lvl", const_sev=False)
-out += block("logctxctx", "d", "lvl", "(*Entry).logContext", "callee.lvl == lvl && callee.s == specDefaultEntry()", const_sev=False)
+out += block("logctx", "d", "lvl", "logctxctx", "callee.lvl == lvl", const_sev=False, fd="1")
+lc = block("logctxctx", "d", "lvl", "(*Entry).logContext", "callee.lvl == lvl && callee.s == specDefaultEntry()", const_sev=False, fd="")
+lc.insert(3, "//@   requires [C14.inc] inc == fd - 1 && 0 <= inc && inc <= 16")
+out += lc
 print("\n".join(out))
